@@ -353,12 +353,8 @@ def domain_ok(desc):
             n = byid[a["score_id"]]
             if n["kind"] == "note":
                 groups.setdefault(n["t"], []).append(float(np.float32(pn[a["performance_id"]]["on"])))
-            else:
-                groups.setdefault(n["t"], [])
     if not anym:
         return False
-    if any(len(v) == 0 for v in groups.values()):
-        return False  # an onset whose only matched notes are grace notes: mean of nothing (NaN knot)
     means = sorted(sum(v) / len(v) for v in groups.values())
     if len(means) < 2:
         return False
@@ -369,7 +365,7 @@ def cases(rng, tier):
     for fn in sorted(os.listdir(FIXDIR)) if os.path.isdir(FIXDIR) else []:
         if fn.endswith(".match"):
             yield {"k": "fixture", "file": fn}
-    n = {"quick": 60, "thorough": 2000, "search": 3000}.get(tier, 60)
+    n = {"quick": 400, "thorough": 9000, "search": 3000}.get(tier, 400)
     made = 0
     while made < n:
         sub = rng.randint(0, 2**31)
@@ -485,12 +481,15 @@ def oracle_rt(desc, res):
     F = []
     if "save_error" in res:
         return ["save: writing the match file raised %s" % res["save_error"]]
+    if "load_error2" in res or "perf" not in res:
+        F += oracle_text(desc, res)
     if "load_error" in res:
         F.append("load: load_match(create_score=True) raised %s" % res["load_error"])
     if "load_error2" in res:
         F.append("load: load_match(create_score=False) raised %s" % res["load_error2"])
         return F
     ppq, mpq = desc["ppq"], desc["mpq"]
+    F += oracle_text(desc, res)
     # ---- alignment
     want = canon_align(desc["align"])
     got = canon_align(res["align"])
@@ -564,7 +563,10 @@ def oracle_rt(desc, res):
     pd = desc["part"]
     byid = {n["id"]: n for n in pd["notes"]}
     stored = [a["score_id"] for a in desc["align"] if a["label"] in ("match", "deletion")]
-    if not stored or not bars_covered(desc):
+    if not stored:
+        return F
+    F += oracle_quarters(desc, res, stored)
+    if not bars_covered(desc):
         return F
     sbm, lbm = sp.beat_map, lpart.beat_map
     lna = {}
@@ -646,6 +648,104 @@ def oracle_rt(desc, res):
             prev_ts = cur_ts
         if ms in ks_at:
             prev_ks = (ks_at[ms][0], ks_at[ms][1] or "major")
+    return F
+
+
+def oracle_text(desc, res):
+    """the written file states the positions of the saved score: beat times of snote and signature lines,
+    measure numbers counted from 0 (pickup) or 1"""
+    F = []
+    pd = desc["part"]
+    sp = res["spart"]
+    sbm = sp.beat_map
+    byid = {n["id"]: n for n in pd["notes"]}
+    meas = sorted(pd["measures"])
+    first_num = 0 if float(sbm(meas[0][0])) < 0 else 1
+
+    def mnum(t):
+        return first_num + max(i for i, (ms, me, _) in enumerate(meas) if ms <= t < me)
+
+    def tied_dur(n):
+        du = n["dur"]
+        while n.get("tie"):
+            n = byid[n["tie"]]
+            du += n["dur"]
+        return du
+
+    for ln in res["text"]:
+        if ln.startswith("snote("):
+            m = SNOTE_RE.search(ln)
+            n = byid[m.group(1)]
+            exp = (mnum(n["t"]), int(round(float(sbm(n["t"])) * 10000)), int(round(float(sbm(n["t"] + tied_dur(n))) * 10000)))
+            got = (int(m.group(5)), dec4(m.group(9)), dec4(m.group(10)))
+            if exp != got or int(m.group(6)) < 1:
+                F.append("text-snote: line of %r states measure/onset/offset %r (beat %s), the score has %r" % (m.group(1), got, m.group(6), exp))
+    for attr, src, namef in (("keySignature", sorted(pd["ks"]), lambda x: key_name(x[1], x[2])),
+                             ("timeSignature", sorted(pd["ts"]), lambda x: "%d/%d" % (x[1], x[2]))):
+        lines = [SIG_RE.match(ln) for ln in res["text"] if ln.startswith("scoreprop(" + attr)]
+        want = sorted((namef(x), mnum(x[0]), int(round(float(sbm(x[0])) * 10000))) for x in src if any(ms <= x[0] < me for ms, me, _ in meas))
+        got = sorted((m.group(2), int(m.group(3)), dec4(m.group(6))) for m in lines)
+        if want != got or any(int(m.group(4)) < 1 for m in lines):
+            F.append("text-sig: %s lines state (value, measure, time) %r beats %r, the score has %r" % (attr, got, [m.group(4) for m in lines], want))
+    return F
+
+
+def oracle_quarters(desc, res, stored):
+    """positions in quarters from the loaded origin (first stored note if it is not after beat 0, else beat 0):
+    independent of the loaded measure structure"""
+    import partitura.score as S
+
+    F = []
+    pd = desc["part"]
+    divs = pd["divs"]
+    byid = {n["id"]: n for n in pd["notes"]}
+    lpart = res["score"][0]
+    ldivs = int(lpart._quarter_durations[0])
+    o_first = min(byid[s]["t"] for s in stored)
+    meas = sorted(pd["measures"])
+    beat0 = meas[0][1] if beats_exact(pd, meas[0][0]) < 0 else meas[0][0]
+    o_ref = o_first if beats_exact(pd, o_first) <= 0 else beat0
+
+    def tied_dur(n):
+        du = n["dur"]
+        while n.get("tie"):
+            n = byid[n["tie"]]
+            du += n["dur"]
+        return du
+
+    lna = {}
+    for n in lpart.notes_tied:
+        lna.setdefault(n.id, n)
+    for sid in stored:
+        n, ln = byid[sid], lna.get(sid)
+        if ln is None:
+            continue
+        if Fraction(ln.start.t).limit_denominator(10**6) / ldivs != Fraction(n["t"] - o_ref, divs) or int(ln.start.t) != ln.start.t:
+            F.append("score-onset-q: note %r loaded %r/%d quarters after the origin, saved %s" % (sid, ln.start.t, ldivs, Fraction(n["t"] - o_ref, divs)))
+        if Fraction(ln.duration_tied).limit_denominator(10**6) / ldivs != Fraction(tied_dur(n), divs):
+            F.append("score-duration-q: note %r loaded with %r/%d quarters, saved %s" % (sid, ln.duration_tied, ldivs, Fraction(tied_dur(n), divs)))
+    for cls, src, val in ((S.TimeSignature, sorted(pd["ts"]), lambda x: (x[1], x[2])),
+                          (S.KeySignature, sorted(pd["ks"]), lambda x: (x[1], x[2] or "major"))):
+        loaded = {}
+        for o in lpart.iter_all(cls):
+            v = (int(o.beats), int(o.beat_type)) if cls is S.TimeSignature else (int(o.fifths), o.mode)
+            loaded.setdefault(Fraction(o.start.t).limit_denominator(10**6) / ldivs, []).append(v)
+        prev = None
+        src = [x for x in src if any(ms <= x[0] < me for ms, me, _ in meas)]
+        changes = []           # signatures that differ from the one before
+        for x in src:
+            if val(x) != prev:
+                changes.append(x)
+            prev = val(x)
+        for i, x in enumerate(changes):
+            v = val(x)
+            if i + 1 < len(changes) and changes[i + 1][0] <= o_ref:
+                continue       # replaced before (or at) the loaded origin: not part of the loaded score
+            if True:
+                q = max(Fraction(0), Fraction(x[0] - o_ref, divs))
+                if v not in loaded.get(q, []):
+                    F.append("%s: %r written %s quarters after the origin, loaded there: %r (all: %r)" % (
+                        "timesig-q" if cls is S.TimeSignature else "keysig-q", v, q, loaded.get(q), sorted(loaded.items())[:6]))
     return F
 
 
@@ -1092,7 +1192,7 @@ def dedup_edit(seed):
         for ln in extra:
             out.insert(rng.randint(min(notes) if notes else 0, len(out)), ln)
         if rng.random() < 0.3:
-            out.insert(rng.randint(0, len(out)), "")
+            out.insert(rng.randint(1, len(out)), "")   # (the version line stays first: the reader takes the version from line 1)
         return out
     return edit
 
